@@ -87,6 +87,39 @@ def constraints(cls):
     return out
 
 
+def class_rules(cls):
+    """Violations of rules a class declares in its own verify() rather than in its tables (hand-written list).  They
+    are judged differentially: only if the violation is refused at the root must it be refused at every depth."""
+    from saml2_tophat import saml
+    cn = schema.cname(cls)
+    out = []
+    if cn == 'saml.Conditions':
+        out.append((['class-rule', 'two-one-time-use'], lambda x: setattr(x, 'one_time_use', [saml.OneTimeUse(), saml.OneTimeUse()])))
+        out.append((['class-rule', 'two-proxy-restriction'], lambda x: setattr(x, 'proxy_restriction', [saml.ProxyRestriction(), saml.ProxyRestriction()])))
+    elif cn == 'saml.AuthnContext':
+        def both(x):
+            x.authn_context_decl = saml.AuthnContextDecl(text='decl')
+            x.authn_context_decl_ref = saml.AuthnContextDeclRef(text='urn:x:ref')
+        out.append((['class-rule', 'decl-and-declref'], both))
+    elif cn == 'saml.Assertion':
+        def bare(x):
+            x.subject = None
+            x.attribute_statement, x.statement, x.authn_statement, x.authz_decision_statement = [], [], [], []
+        out.append((['class-rule', 'no-subject-no-statement'], bare))
+        out.append((['class-rule', 'authn-statement-without-subject'], lambda x: setattr(x, 'subject', None)))
+    elif cn == 'saml.AttributeValue':
+        def empty(x):
+            object.__setattr__(x, 'text', None)
+            object.__setattr__(x, 'extension_attributes', {})
+        out.append((['class-rule', 'empty-without-nil'], empty))
+    elif cn == 'saml.SubjectLocality':
+        def addr(x):
+            x.address = 'not-an-address'
+            x.dns_name = None
+        out.append((['class-rule', 'address-not-ip'], addr))
+    return out
+
+
 def validates(x):
     """('ok', None) | ('rejected', exc name) -- any exception counts as rejection"""
     from saml2_tophat.validate import valid_instance
@@ -133,12 +166,20 @@ def evaluate(names):
             elif not special:
                 bad.append((['valid-instance'], 'valid-instance-rejected:%s' % exc))
         if base_ok:
-            for desc, viol in constraints(cls):
+            for desc, viol in constraints(cls) + class_rules(cls):
                 x = schema.base_instance(cls, 2)
                 viol(x)
                 n += 1
                 st, exc = validates(x)
+                if desc[0] == 'class-rule':
+                    try:
+                        x.verify()          # the class's own rule set
+                        st = 'ok'
+                    except Exception:
+                        st = 'rejected'
                 if st == 'ok':
+                    if desc[0] == 'class-rule':
+                        continue            # not (or no longer) a rule of this class: nothing to demand below
                     bad.append((desc, 'violation-accepted-at-root'))
                 ps = parents_of(cls)
                 if not CFG['all_parents']:
@@ -195,7 +236,7 @@ def run(ctx):
         'coverage': {
             'evaluations': n, 'distinct_nontrivial': len(nontriv), 'exhaustive': True, 'classes': len(classes),
             'classes_whose_base_instance_validates': n_base_ok, 'constraint_violation_cases': n_constraints,
-            'rule': 'for every schema class: the base instance (all declared attributes and children, type-appropriate values) must validate without raising anything that is not a validation error; then every declared constraint - required attribute missing / empty, child count min-1, child count max+1, attribute or text of a checked simple type (dateTime, boolean, integer kinds, duration) with each ill-typed value, enumeration with a foreign value - is violated in isolation at the root and nested under %s, and valid_instance() must raise; non-trivial counts distinct classes with at least one constraint' % ('every class that can contain it and, one level deeper, under every container of that class' if ctx.thorough else 'every class that can contain it'),
+            'rule': 'for every schema class: the base instance (all declared attributes and children, type-appropriate values) must validate without raising anything that is not a validation error; then every declared constraint - required attribute missing / empty, child count min-1, child count max+1, attribute or text of a checked simple type (dateTime, boolean, integer kinds, duration) with each ill-typed value, enumeration with a foreign value - is violated in isolation at the root and nested under %s, and valid_instance() must raise; 8 rules that classes declare in their own verify() (Conditions, AuthnContext, Assertion, AttributeValue, SubjectLocality) are judged differentially (refused at the root => refused at every depth); non-trivial counts distinct classes with at least one constraint' % ('every class that can contain it and, one level deeper, under every container of that class' if ctx.thorough else 'every class that can contain it'),
             'samples': [{'class': res[0][0][0], 'cases': res[0][0][1]}],
         },
         'assumptions': ['constraints = what the class tables declare (c_attributes required flag, c_cardinality, declared simple types); children without a c_cardinality entry have no declared bound',
@@ -211,7 +252,7 @@ def replay(ctx, w):
         return {'violation': st != 'ok', 'observed': [st, exc]}
     desc = w['constraint']
     core = desc[:desc.index('under')] if 'under' in desc else desc
-    for d, viol in constraints(cls):
+    for d, viol in constraints(cls) + class_rules(cls):
         if d == core:
             x = schema.base_instance(cls, 2)
             viol(x)
